@@ -14,6 +14,10 @@ CartNgb(N, per, c, k, sg) ==
     LET x == c[k] + sg
     IN IF x >= 0 /\ x < N[k] THEN [c EXCEPT ![k] = x]
        ELSE IF per[k] THEN [c EXCEPT ![k] = (x + N[k]) % N[k]] ELSE NoCell
+\* the geometry the neighbour tuple of the code carries, in lattice units (a cell has 4 units per axis): the neighbour's
+\* midpoint relative to the cell's (across a periodic boundary: of the periodic image next to the cell; at a reflecting
+\* boundary: of the mirror cell), the midpoint of the common face relative to the cell's midpoint, the face area
+NgbGeom(k, sg) == [j \in 1 .. 3 |-> IF j = k THEN 4 * sg ELSE 0] \o [j \in 1 .. 3 |-> IF j = k THEN 2 * sg ELSE 0] \o <<16>>
 FlatOr(N, c) == IF c = NoCell THEN -1 ELSE Flat(N, c)
 Points(N) == (0 .. 4 * N[1] - 1) \X (0 .. 4 * N[2] - 1) \X (0 .. 4 * N[3] - 1)
 \* every lattice point of the half-open box lies in exactly one cell
